@@ -148,6 +148,11 @@ def typeof(x):
     return type(x)
 
 
+def same(a, b):
+    """Identity for objects, equality for immutable scalars."""
+    return a is b or (type(a) in (int, str, float, bool, tuple) and type(a) is type(b) and a == b)
+
+
 def is_none(x):
     return x is None
 
@@ -181,5 +186,5 @@ class Old:
 
 
 NATIVE_HELPERS = dict(implies=implies, iff=iff, index_of=index_of, order_of=order_of, key_at=key_at,
-                      is_fresh=is_fresh, same_elems=same_elems, same_dict=same_dict, typeof=typeof,
+                      is_fresh=is_fresh, same_elems=same_elems, same_dict=same_dict, typeof=typeof, same=same,
                       is_none=is_none)
